@@ -15,7 +15,7 @@ from mcheck.core.runner import Ctx, Result, Violation
 from mcheck.props import applycommon as AC
 
 ID = "C16"
-PLACEMENTS = ["top", "after_docstring", "after_future", "in_function", "in_type_checking", "after_code"]
+PLACEMENTS = ["top", "after_docstring", "after_future", "in_function", "in_type_checking", "after_code", "type_checking_in_try"]
 FORMS = ["import_pkg", "import_sub", "from_import", "from_import_as", "from_star", "import_as"]
 USES = [True, False]
 STUBKINDS = ["new_user_module", "typing_name", "already_imported_name", "typed_dict", "same_module_other_name", "no_new_import", "user_module_named_like_typing", "same_short_name_other_module"]
@@ -53,6 +53,9 @@ def gen_source(pl: str, form: str, use: bool) -> Tuple[str, str]:
         use = False  # a name imported only for type checking cannot be used at runtime
     elif pl == "in_function":
         pass
+    elif pl == "type_checking_in_try":
+        # the compatibility idiom: TYPE_CHECKING is bound inside try/except, below the plain imports
+        L += ["import os", stmt, "try:", "    from typing import TYPE_CHECKING", "except ImportError:", "    TYPE_CHECKING = False"]
     elif pl == "after_code":
         L += ["import os", "VALUE = os.sep", stmt]
     else:
@@ -163,7 +166,9 @@ def check(src: str, stub: str, res: str, case: Dict[str, Any]) -> List[Tuple[str
 
 
 def all_cases() -> List[Tuple[str, str, bool, str, bool]]:
-    return [(pl, fo, u, sk, ow) for pl in PLACEMENTS for fo in FORMS for u in USES for sk in STUBKINDS for ow in (False, True)]
+    # the generated sources carry no annotations, so overwrite=True differs from False only in libcst's import handling:
+    # it is kept for the placements where imports interact most
+    return [(pl, fo, u, sk, ow) for pl in PLACEMENTS for fo in FORMS for u in USES for sk in STUBKINDS for ow in (False, True) if not ow or pl in ("top", "in_type_checking", "type_checking_in_try")]
 
 
 def run_case(res: Result, ctx: Ctx, ci: int, c, srcdir: Path) -> None:
